@@ -184,7 +184,7 @@ Proof. reflexivity. Qed.
 (** the output never has more entries than the script *)
 Lemma run_length script : forall s, (length (run s script) <= length script)%nat.
 Proof.
-  induction script as [|a rest IH]; intros s; [cbn; lia|].
+  clear HI. induction script as [|a rest IH]; intros s; [cbn; lia|].
   rewrite run_cons. destruct (after_stop stop s); [cbn; lia|].
   destruct (after_stop stop (s + dur TO a)); [cbn; lia|]. cbn [length]. specialize (IH (next_start t0 I s (s + dur TO a))). lia.
 Qed.
@@ -270,7 +270,7 @@ Lemma run_ends_by_stop script : forall s,
   | (sl, Some (e, _)) :: _ => after_stop stop (next_start t0 I sl e) = true
   end.
 Proof.
-  induction script as [|a rest IH]; intros s Hlen; [cbn in Hlen; lia|].
+  clear HI. induction script as [|a rest IH]; intros s Hlen; [cbn in Hlen; lia|].
   rewrite run_cons in Hlen |- *.
   destruct (after_stop stop s) eqn:Hs; [reflexivity|].
   destruct (after_stop stop (s + dur TO a)) eqn:He; [exact Logic.I|].
@@ -485,3 +485,306 @@ Proof.
 Qed.
 
 End Probe.
+
+(** * The run goes on until the stop *)
+
+Section Alive.
+Variables (t0 I TO : N) (stop : option N).
+
+Lemma run_next_due script : forall s k sk e ok,
+  nth_error (loop t0 I TO stop s script) k = Some (sk, Some (e, ok)) ->
+  nth_error (loop t0 I TO stop s script) (S k) = None ->
+  (S k < length script)%nat ->
+  after_stop stop (next_start t0 I sk e) = true.
+Proof.
+  induction script as [|a rest IH]; intros s k sk e ok H Hn Hlen.
+  - destruct k; discriminate H.
+  - rewrite run_cons in H, Hn.
+    destruct (after_stop stop s) eqn:Hs; [destruct k; discriminate H|].
+    destruct (after_stop stop (s + dur TO a)) eqn:He.
+    + destruct k as [|k]; [discriminate H|destruct k; discriminate H].
+    + destruct k as [|k].
+      * injection H as <- <- _. cbn [nth_error] in Hn.
+        destruct rest as [|a' rest']; [cbn in Hlen; lia|].
+        rewrite run_cons in Hn.
+        destruct (after_stop stop (next_start t0 I s (s + dur TO a))); [reflexivity|].
+        destruct (after_stop stop (next_start t0 I s (s + dur TO a) + dur TO a')); discriminate Hn.
+      * cbn [nth_error] in H, Hn. cbn [length] in Hlen.
+        apply (IH _ _ _ _ _ H Hn). lia.
+Qed.
+
+Lemma run_starts script s : script <> [] -> after_stop stop s = false ->
+  exists r, nth_error (loop t0 I TO stop s script) 0 = Some (s, r).
+Proof.
+  intros Hne Hs. destruct script as [|a rest]; [contradiction|].
+  rewrite run_cons, Hs. destruct (after_stop stop (s + dur TO a)); eexists; reflexivity.
+Qed.
+
+End Alive.
+
+Lemma run_no_stop_length t0 I TO script : forall s, length (loop t0 I TO None s script) = length script.
+Proof.
+  induction script as [|a rest IH]; intros s; [reflexivity|].
+  rewrite run_cons. cbn [after_stop length]. now rewrite IH.
+Qed.
+
+(** * Re-synchronisation with the tick grid *)
+
+Section Resync.
+Variables (t0 I TO : N) (script : list answer) (stop : option N).
+Hypothesis HI : 0 < I.
+
+Notation out := (probe_times t0 I TO script stop).
+
+(** One step: a check shorter than the interval either brings the loop back to the
+    grid or brings it strictly closer (the phase shrinks by interval - duration). *)
+Lemma probe_resync_step k s r s' r' :
+  nth_error out k = Some (s, r) -> nth_error out (S k) = Some (s', r') ->
+  exists a, nth_error script k = Some a /\
+    let d := dur TO a in
+    d < I ->
+    (phase t0 I s + d < I -> s' = s - phase t0 I s + I /\ on_grid t0 I s' = true) /\
+    (I <= phase t0 I s + d -> s' = s + d /\ phase t0 I s' = phase t0 I s + d - I /\ phase t0 I s' < phase t0 I s).
+Proof.
+  intros H H'.
+  destruct (probe_consec t0 I TO script stop HI k s r s' r' H H') as (a & Ha & Hr & _ & Hc & _ & _ & _ & _ & _ & Hg & _).
+  exists a. split; [exact Ha|]. cbn zeta in *. intros Hd.
+  pose proof (probe_ge t0 I TO script stop HI k s r H) as Hge.
+  destruct (tu_decomp t0 I s HI Hge) as [Hdec Hph].
+  set (q := ticks_upto t0 I s) in *. set (p := phase t0 I s) in *. split.
+  - intros Hlt. apply N.ltb_lt in Hlt. rewrite Hlt in Hc. split; [exact Hc|].
+    destruct Hg as [Hg|Hg]; [|exact Hg].
+    unfold on_grid. apply N.eqb_eq.
+    destruct (tu_unique t0 I s' (q + 1) 0 HI) as [_ Hp]; [lia|lia|exact Hp].
+  - intros Hge'. apply N.ltb_ge in Hge'. rewrite Hge' in Hc. apply N.ltb_ge in Hge'.
+    split; [exact Hc|].
+    destruct (tu_unique t0 I s' (q + 1) (p + dur TO a - I) HI) as [_ Hp]; [lia|lia|].
+    rewrite Hp. split; [reflexivity|lia].
+Qed.
+
+(** On the grid with a check shorter than the interval: the next probe is exactly
+    one interval later. *)
+Lemma probe_stays_on_grid k s r s' r' :
+  nth_error out k = Some (s, r) -> nth_error out (S k) = Some (s', r') ->
+  on_grid t0 I s = true ->
+  (exists a, nth_error script k = Some a /\ dur TO a < I) ->
+  s' = s + I.
+Proof.
+  intros H H' Hg (a & Ha & Hd).
+  destruct (probe_resync_step k s r s' r' H H') as (a' & Ha' & Hstep).
+  rewrite Ha in Ha'. injection Ha' as <-. cbn zeta in Hstep.
+  unfold on_grid in Hg. apply N.eqb_eq in Hg.
+  destruct (Hstep Hd) as [H1 _]. rewrite Hg in H1. destruct H1 as [H1 _]; lia.
+Qed.
+
+(** With all checks at most D < interval long, the loop is back on the grid within
+    n probes as soon as n * (interval - D) covers the phase it is off by. *)
+Lemma probe_resync_within D :
+  D < I -> (forall a, In a script -> dur TO a <= D) ->
+  forall n k s r,
+  nth_error out k = Some (s, r) ->
+  nth_error out (k + n) <> None ->
+  phase t0 I s <= N.of_nat n * (I - D) ->
+  exists j sj rj, (j <= n)%nat /\ nth_error out (k + j) = Some (sj, rj) /\ on_grid t0 I sj = true.
+Proof.
+  intros HD Hall. induction n as [|n IH]; intros k s r H Hn Hph.
+  - exists 0%nat, s, r. split; [lia|]. rewrite Nat.add_0_r. split; [exact H|].
+    unfold on_grid. apply N.eqb_eq. lia.
+  - destruct (N.eq_dec (phase t0 I s) 0) as [Hz|Hnz].
+    + exists 0%nat, s, r. split; [lia|]. rewrite Nat.add_0_r. split; [exact H|].
+      unfold on_grid. apply N.eqb_eq. exact Hz.
+    + assert (Hlen : (k + S n < length out)%nat) by (apply nth_error_Some; exact Hn).
+      destruct (nth_error out (S k)) as [[s' r']|] eqn:H'.
+      2:{ apply nth_error_None in H'. lia. }
+      destruct (probe_resync_step k s r s' r' H H') as (a & Ha & Hstep). cbn zeta in Hstep.
+      assert (Hd : dur TO a <= D) by (apply Hall; eapply nth_error_In; exact Ha).
+      assert (HdI : dur TO a < I) by lia.
+      destruct (Hstep HdI) as [Hlt Hge].
+      destruct (N.lt_ge_cases (phase t0 I s + dur TO a) I) as [Hc|Hc].
+      * destruct (Hlt Hc) as [_ Hg]. exists 1%nat, s', r'. split; [lia|].
+        replace (k + 1)%nat with (S k) by lia. split; assumption.
+      * destruct (Hge Hc) as (_ & Hp & _).
+        assert (Hn' : nth_error out (S k + n) <> None) by (replace (S k + n)%nat with (k + S n)%nat by lia; exact Hn).
+        assert (Hph' : phase t0 I s' <= N.of_nat n * (I - D)).
+        { rewrite Hp. replace (N.of_nat (S n)) with (N.of_nat n + 1) in Hph by lia. lia. }
+        destruct (IH (S k) s' r' H' Hn' Hph') as (j & sj & rj & Hj & Hnth & Hg).
+        exists (S j), sj, rj. split; [lia|]. replace (k + S j)%nat with (S k + j)%nat by lia. split; assumption.
+Qed.
+
+End Resync.
+
+(** * Until the stop *)
+
+Section Until.
+Variables (t0 I TO : N) (script : list answer) (stop : option N).
+
+Notation out := (probe_times t0 I TO script stop).
+
+Lemma probe_next_due k s e ok :
+  nth_error out k = Some (s, Some (e, ok)) -> nth_error out (S k) = None ->
+  (S k < length script)%nat ->
+  after_stop stop (next_start t0 I s e) = true.
+Proof. apply run_next_due. Qed.
+
+Lemma probe_starts : script <> [] -> after_stop stop t0 = false ->
+  exists r, nth_error out 0 = Some (t0, r).
+Proof. apply run_starts. Qed.
+
+Lemma probe_length_le : (length out <= length script)%nat.
+Proof. apply run_length. Qed.
+
+End Until.
+
+Lemma probe_no_stop_length t0 I TO script : length (probe_times t0 I TO script None) = length script.
+Proof. apply run_no_stop_length. Qed.
+
+(** * The statements of props/C09probe.v *)
+
+Lemma P_exact_cadence : forall t0 I TO script stop k s r,
+  0 < I -> (forall a, In a script -> dur TO a < I) ->
+  nth_error (probe_times t0 I TO script stop) k = Some (s, r) ->
+  s = t0 + N.of_nat k * I.
+Proof. intros t0 I TO script stop k s r HI. apply probe_exact. exact HI. Qed.
+
+Lemma P_exact_cadence_timeout : forall t0 I TO script stop k s r,
+  0 < I -> TO < I ->
+  nth_error (probe_times t0 I TO script stop) k = Some (s, r) ->
+  s = t0 + N.of_nat k * I.
+Proof.
+  intros t0 I TO script stop k s r HI HTO. apply probe_exact; [exact HI|].
+  intros a _. pose proof (dur_le_timeout TO a). lia.
+Qed.
+
+Lemma P_exact_cadence_alive : forall t0 I TO script stop k,
+  0 < I -> (forall a, In a script -> dur TO a < I) ->
+  (k < length script)%nat ->
+  after_stop stop (t0 + N.of_nat k * I) = false ->
+  exists r, nth_error (probe_times t0 I TO script stop) k = Some (t0 + N.of_nat k * I, r).
+Proof. intros t0 I TO script stop k HI. apply probe_exact_alive. exact HI. Qed.
+
+Lemma P_consecutive : forall t0 I TO script stop k s r s' r',
+  0 < I ->
+  nth_error (probe_times t0 I TO script stop) k = Some (s, r) ->
+  nth_error (probe_times t0 I TO script stop) (S k) = Some (s', r') ->
+  exists a, nth_error script k = Some a /\
+    let d := dur TO a in
+    r = Some (s + d, verdict TO a) /\
+    s' = next_start t0 I s (s + d) /\
+    s' = (if phase t0 I s + d <? I then s - phase t0 I s + I else s + d) /\
+    s + d <= s' /\ s' <= s + d + I /\ s' <= s + N.max I d /\ s' <= s + N.max I TO /\ s < s' /\
+    (s' = s + d \/ on_grid t0 I s' = true) /\
+    (s' < s + d + I \/ (on_grid t0 I (s + d) = true /\ s' = s + d + I)).
+Proof. intros t0 I TO script stop k s r s' r' HI. apply probe_consec. exact HI. Qed.
+
+Lemma P_next_tick : forall t0 I TO script stop k s r s' r',
+  0 < I ->
+  nth_error (probe_times t0 I TO script stop) k = Some (s, r) ->
+  nth_error (probe_times t0 I TO script stop) (S k) = Some (s', r') ->
+  exists e ok, r = Some (e, ok) /\ s <= e /\
+    ((exists j, s < tick_at t0 I j /\ tick_at t0 I j <= e) -> s' = e) /\
+    (~ (exists j, s < tick_at t0 I j /\ tick_at t0 I j <= e) ->
+       exists j, s' = tick_at t0 I j /\ e < s' /\ (forall i, e < tick_at t0 I i -> s' <= tick_at t0 I i)).
+Proof. intros t0 I TO script stop k s r s' r' HI. apply probe_consec_ticks. exact HI. Qed.
+
+(** The bound "next send < result + interval" is FALSE: a check that ends exactly on a
+    tick it did not miss (e.g. an immediate answer to a probe sent on the grid) is
+    followed by a wait of exactly one interval. *)
+Lemma P_gap_lt_refuted :
+  exists t0 I TO script stop k s e ok s' r',
+    0 < I /\
+    nth_error (probe_times t0 I TO script stop) k = Some (s, Some (e, ok)) /\
+    nth_error (probe_times t0 I TO script stop) (S k) = Some (s', r') /\
+    ~ s' < e + I.
+Proof.
+  exists 0, 1000, 500, [(Some 0, true); (Some 0, true)], None, 0%nat, 0, 0, true, 1000, (Some (1000, true)).
+  split; [reflexivity|]. split; [reflexivity|]. split; [reflexivity|]. intros H. discriminate H.
+Qed.
+
+Lemma P_first : forall t0 I TO script stop s r,
+  nth_error (probe_times t0 I TO script stop) 0 = Some (s, r) -> s = t0.
+Proof. intros t0 I TO script stop s r. apply probe_first. Qed.
+
+Lemma P_resync_step : forall t0 I TO script stop k s r s' r',
+  0 < I ->
+  nth_error (probe_times t0 I TO script stop) k = Some (s, r) ->
+  nth_error (probe_times t0 I TO script stop) (S k) = Some (s', r') ->
+  exists a, nth_error script k = Some a /\
+    let d := dur TO a in
+    d < I ->
+    (phase t0 I s + d < I -> s' = s - phase t0 I s + I /\ on_grid t0 I s' = true) /\
+    (I <= phase t0 I s + d -> s' = s + d /\ phase t0 I s' = phase t0 I s + d - I /\ phase t0 I s' < phase t0 I s).
+Proof. intros t0 I TO script stop k s r s' r' HI. apply probe_resync_step. exact HI. Qed.
+
+Lemma P_stays_on_grid : forall t0 I TO script stop k s r s' r',
+  0 < I ->
+  nth_error (probe_times t0 I TO script stop) k = Some (s, r) ->
+  nth_error (probe_times t0 I TO script stop) (S k) = Some (s', r') ->
+  on_grid t0 I s = true ->
+  (exists a, nth_error script k = Some a /\ dur TO a < I) ->
+  s' = s + I.
+Proof. intros t0 I TO script stop k s r s' r' HI. apply probe_stays_on_grid. exact HI. Qed.
+
+Lemma P_resync_within : forall t0 I TO script stop D n k s r,
+  0 < I -> D < I -> (forall a, In a script -> dur TO a <= D) ->
+  nth_error (probe_times t0 I TO script stop) k = Some (s, r) ->
+  nth_error (probe_times t0 I TO script stop) (k + n) <> None ->
+  phase t0 I s <= N.of_nat n * (I - D) ->
+  exists j sj rj, (j <= n)%nat /\
+    nth_error (probe_times t0 I TO script stop) (k + j) = Some (sj, rj) /\ on_grid t0 I sj = true.
+Proof.
+  intros t0 I TO script stop D n k s r HI HD Hall. apply probe_resync_within; assumption.
+Qed.
+
+Lemma P_result : forall t0 I TO script stop k s e ok,
+  nth_error (probe_times t0 I TO script stop) k = Some (s, Some (e, ok)) ->
+  exists a, nth_error script k = Some a /\
+    e = s + match fst a with Some d => N.min d TO | None => TO end /\
+    (ok = true <-> exists d, fst a = Some d /\ d <= TO /\ snd a = true).
+Proof.
+  intros t0 I TO script stop k s e ok H.
+  destruct (probe_result t0 I TO script stop k s e ok H) as (a & Ha & He & Hok).
+  exists a. split; [exact Ha|]. split; [exact He|]. subst ok. apply verdict_true_iff.
+Qed.
+
+Lemma P_stop : forall t0 I TO script x k s r,
+  nth_error (probe_times t0 I TO script (Some x)) k = Some (s, r) ->
+  s <= x /\
+  match r with
+  | Some (e, _) => e <= x
+  | None => (exists a, nth_error script k = Some a /\ x < s + dur TO a) /\
+            nth_error (probe_times t0 I TO script (Some x)) (S k) = None
+  end.
+Proof. intros t0 I TO script x k s r. apply probe_stop. reflexivity. Qed.
+
+Lemma P_until_stop : forall t0 I TO script stop,
+  (script <> [] -> after_stop stop t0 = false ->
+   exists r, nth_error (probe_times t0 I TO script stop) 0 = Some (t0, r)) /\
+  (forall k s e ok,
+   nth_error (probe_times t0 I TO script stop) k = Some (s, Some (e, ok)) ->
+   nth_error (probe_times t0 I TO script stop) (S k) = None ->
+   (S k < length script)%nat ->
+   after_stop stop (next_start t0 I s e) = true).
+Proof.
+  intros t0 I TO script stop. split.
+  - apply probe_starts.
+  - intros k s e ok. apply probe_next_due.
+Qed.
+
+Lemma P_no_stop : forall t0 I TO script,
+  length (probe_times t0 I TO script None) = length script /\
+  (forall k s r, nth_error (probe_times t0 I TO script None) k = Some (s, r) -> r <> None).
+Proof.
+  intros t0 I TO script. split; [apply probe_no_stop_length|].
+  intros k s r. apply probe_no_stop_no_abandon. reflexivity.
+Qed.
+
+Lemma P_gap_lt_partial : forall t0 I TO script stop k s e ok s' r',
+  0 < I ->
+  nth_error (probe_times t0 I TO script stop) k = Some (s, Some (e, ok)) ->
+  nth_error (probe_times t0 I TO script stop) (S k) = Some (s', r') ->
+  s' < e + I \/ (on_grid t0 I e = true /\ s' = e + I).
+Proof.
+  intros t0 I TO script stop k s e ok s' r' HI H H'.
+  destruct (probe_consec t0 I TO script stop HI k s _ s' r' H H') as (a & _ & Hr & _ & _ & _ & _ & _ & _ & _ & _ & Hg).
+  cbn zeta in *. injection Hr as He _. rewrite <- He in Hg. exact Hg.
+Qed.
